@@ -374,7 +374,65 @@ def check_bad_sig(case, ctx):
             f"kind={case['kind']} input={j}")
 
 
+FUZZ_SEED_HEX = (
+    "70736274ff0100750200000001268171371edff285e937adeea4b37b78000c0566cbb3ad64641713ca42171bf60000000000feff"
+    "ffff02d3dff505000000001976a914d0c59903c5bac2868760e90fd521a4665aa7652088ac00e1f5050000000017a9143545e6e3"
+    "3b832c47050f24d3eeb93c9c03948bc787b32e1300000100fda5010100000000010289a3c71eab4d20e0371bbba4cc698fa295c9"
+    "463afa2e397f8533ccb62f9567e50100000017160014be18d152a9b012039daf3da7de4f53349eecb985ffffffff86f8aa43a71d"
+    "ff1448893a530a7237ef6b4608bbb2dd2d0171e63aec6a4890b40100000017160014fe3e9ef1a745e974d902c4355943abcb34bd"
+    "5353ffffffff0200c2eb0b000000001976a91485cff1097fd9e008bb34af709c62197b38978a4888ac72fef84e2c00000017a914"
+    "339725ba21efd62ac753a9bcd067d6c7a6a39d05870247304402202712be22e0270f394f568311dc7ca9a68970b8025fdd3b2402"
+    "29f07f8a5f3a240220018b38d7dcd314e734c9276bd6fb40f673325bc4baa144c800d2f2f02db2765c012103d2e15674941bad4a"
+    "996372cb87e1856d3652606d98562fe39c5e9e7e413f210502483045022100d12b852d85dcd961d2f5f4ab660654df6eedcc794c"
+    "0c33ce5cc309ffb5fce58d022067338a8e0e1725c197fb1a88af59f51e44e4255b20167c8684031c05d1f2592a01210223b72bee"
+    "f0965d10be0778efecd61fcac6f79a4ea169393380734464f84f2ab300000000000000")
+
+
+def fuzz_seeds(tier):
+    seeds = [bytes.fromhex(FUZZ_SEED_HEX)]
+    # a tiny hand-made PSBT: one input, one output, one unknown pair in each map
+    tx = psbtmap.write_tx_legacy({"version": 2, "locktime": 0, "ins": [
+        {"prev": bytes(32), "index": 0, "script_sig": b"", "sequence": 0xFFFFFFFF}],
+        "outs": [{"amount": 1000, "spk": b"\x00\x14" + bytes(20)}]})
+    seeds.append(psbtmap.serialize({"global": [(b"\x00", tx), (b"\xfc\x01", b"g")],
+                                    "inputs": [[(b"\x01", (2000).to_bytes(8, "little") + b"\x16\x00\x14" + bytes(20)),
+                                                (b"\x0fk", b"v")]],
+                                    "outputs": [[(b"\x7f", b"")]]}))
+    return seeds
+
+
+def check_fuzz(case, ctx):
+    """arbitrary bytes: whatever PSBT.parse accepts must serialise to a fixpoint that is a well-formed
+    BIP174 PSBT whose unsigned transaction has empty scriptSigs"""
+    data = case["data"]
+    st_, p = attempt(PSBT.parse, BytesIO(data))
+    if st_ == "exc":
+        ctx.label("rejected")
+        return
+    ctx.label("parsed")
+    if len(p.tx_obj.tx_ins) == 0:
+        ctx.label("zero_input_psbt_out_of_domain")  # no unambiguous encoding of a 0-input transaction
+        return
+    ctx.nontrivial()
+    st_, s1 = attempt(p.serialize)
+    if st_ == "exc":
+        require("too long" in str(s1), "fuzz/parsed_psbt_cannot_be_serialised", f"{type(s1).__name__}: {s1}")
+        return
+    st_, p2 = attempt(PSBT.parse, BytesIO(s1))
+    require(st_ == "ok", "fuzz/own_serialisation_not_parseable", f"{type(p2).__name__}: {p2} data={data.hex()[:300]}")
+    s2 = must(p2.serialize, "fuzz/reserialise")
+    require(s1 == s2, "fuzz/serialisation_is_not_a_fixpoint", data.hex()[:300])
+    st_, m = attempt(psbtmap.parse, s1)
+    require(st_ == "ok", "fuzz/serialisation_is_not_bip174", f"{m}")
+    for i in m["tx"]["ins"]:
+        require(i["script_sig"] == b"", "fuzz/unsigned_tx_has_scriptsig")
+
+
 SUBS = [
+    Sub("fuzz_parse_fixpoint", check_fuzz, kind="fuzz", seeds=fuzz_seeds, max_len=4096,
+        budget={"quick": 3000, "thorough": 800000}, required=["parsed", "rejected"],
+        nontrivial_rule="input accepted by PSBT.parse",
+        doc="quick: Hypothesis byte-level mutations of seed PSBTs; thorough: atheris coverage-guided campaign"),
     Sub("workflow_orders", check_flow, strategy=lambda tier: flow_cases(), stateful=True,
         budget={"quick": 90, "thorough": 6000},
         required=["kind:" + k for k in KINDS] + ["enough_signers", "too_few_signers", "more_than_m_signers",
